@@ -2,6 +2,7 @@
    namefn is ANY function computing the new name of an entry (variant table, resolver, coercion). *)
 From RN Require Import Base.Bytes Model.StyleDef Model.CaseModel Model.CaseSpec Model.Fs Model.ApplyModel Model.Renames Model.Compound Model.Coercion Model.PathName.
 From RN Require Import Proofs.RenameP Proofs.RenameP2 Proofs.RenamesP Proofs.StandaloneP Proofs.CoercionP Proofs.PathNameP.
+From RN Require Proofs.Apply2P Proofs.ApplySpecP Proofs.PlanApplyP.   (* qualified: ApplySpecP.keys would shadow the variant table's keys *)
 Close Scope N_scope.
 
 (* every scheduled rename belongs to a listed entry of an enabled kind, changes exactly that entry's own
@@ -123,3 +124,67 @@ Print Assumptions C08_no_rename_files.
 Print Assumptions C08_no_rename_dirs.
 Print Assumptions C08_distinct_targets.
 Print Assumptions C08_compose.
+
+(* ---- PLANNER AND APPLY COMPOSED (Proofs/PlanApplyP.v).  PlanApplyP.listing_of t l: l is what a directory walk of t yields (every key but the
+   root once, with its kind; parents are directories) - walk_listing_of shows every finite-map directory tree has one.  For ANY new-name
+   function, any --no-rename-files / --no-rename-dirs setting: the renames the planner produces from the listing satisfy every hypothesis
+   of C08_compose PROVIDED no planned destination exists in the tree.  That proviso is necessary and is not the planner's business: a chain
+   a -> b, b -> c passes the conflict filter (distinct destinations); apply refuses it up front with the tree untouched - model
+   (PlanApplyP.Chain) and real code agree. ---- *)
+Theorem C08_planner_apply_compose : forall namefn rf rd t l,
+  PlanApplyP.listing_of t l ->
+  let rs := without_conflicts (plan_listing namefn rf rd l) in
+  (forall r, In r rs -> lookup t (ar_new r) = None) ->
+  (forall r, In r rs -> case_only (ar_path r) (ar_new r) = true ->
+     lookup t (parent (ar_path r) ++ [probe_name]) = None /\
+     forall r1, In r1 rs -> ar_new r1 <> parent (ar_path r) ++ [probe_name]) ->
+  (forall r, In r rs -> RenameP.shape r) /\
+  NoDup (map ar_path rs) /\
+  (forall r1 r2, In r1 rs -> In r2 rs -> ar_new r1 = ar_new r2 -> ar_path r1 = ar_path r2) /\
+  fs_ok t rs /\
+  dedupe_paths [] rs = rs /\
+  ApplySpecP.plan_ok {| ap_id := []; ap_hunks := []; ap_renames := rs |} t /\
+  exists s',
+    rename_stage no_fault (sort_renames rs) [] [] {| s_fs := t; s_n := 0; s_trace := [] |}
+    = inl (s', stage_perf (sort_renames rs) [], stage_steps (sort_renames rs) [])
+    /\ s_fs s' = map (fun e => (final_path rs (fst e), snd e)) t
+    /\ (forall q n, lookup t q = Some n -> lookup (s_fs s') (final_path rs q) = Some n)
+    /\ (forall q, lookup t q = None -> avoids rs q -> lookup (s_fs s') (final_path rs q) = None).
+Proof. exact PlanApplyP.planner_apply_compose. Qed.
+
+(* completeness: an entry of an enabled kind for which the new-name function answers a different name, and whose destination is not a
+   conflict target, IS scheduled, and after the stage its node sits below its parent's final path under the new name *)
+Theorem C08_planner_complete : forall namefn rf rd t l,
+  PlanApplyP.listing_of t l ->
+  let pl := plan_listing namefn rf rd l in
+  let rs := without_conflicts pl in
+  (forall r, In r rs -> lookup t (ar_new r) = None) ->
+  (forall r, In r rs -> case_only (ar_path r) (ar_new r) = true ->
+     lookup t (parent (ar_path r) ++ [probe_name]) = None /\
+     forall r1, In r1 rs -> ar_new r1 <> parent (ar_path r) ++ [probe_name]) ->
+  forall e par c n,
+    In e l -> en_path e = par ++ [c] -> namefn c = Some n -> n <> c ->
+    (if en_dir e then rd else rf) = true ->
+    ~ In (par ++ [n]) (conflict_targets pl) ->
+    In {| ar_path := par ++ [c]; ar_new := par ++ [n]; ar_dir := en_dir e |} rs /\
+    final_path rs (par ++ [c]) = final_path rs par ++ [n] /\
+    forall s' perf exe,
+      rename_stage no_fault (sort_renames rs) [] [] {| s_fs := t; s_n := 0; s_trace := [] |} = inl (s', perf, exe) ->
+      exists nd, lookup t (par ++ [c]) = Some nd /\ dirnode nd = en_dir e /\
+                 lookup (s_fs s') (final_path rs par ++ [n]) = Some nd.
+Proof. exact PlanApplyP.planner_complete. Qed.
+
+(* exactness: an entry for which the new-name function has no (other) name keeps its own name component *)
+Theorem C08_planner_exact : forall namefn rf rd l q c,
+  namefn c = None \/ namefn c = Some c ->
+  let rs := without_conflicts (plan_listing namefn rf rd l) in
+  final_path rs (q ++ [c]) = final_path rs q ++ [c].
+Proof. exact PlanApplyP.planner_exact. Qed.
+
+Theorem C08_every_tree_has_a_listing : forall t, NoDup (map fst t) -> Apply2P.closed_dir t -> PlanApplyP.listing_of t (PlanApplyP.walk t).
+Proof. exact PlanApplyP.walk_listing_of. Qed.
+
+Print Assumptions C08_planner_apply_compose.
+Print Assumptions C08_planner_complete.
+Print Assumptions C08_planner_exact.
+Print Assumptions C08_every_tree_has_a_listing.
